@@ -163,7 +163,7 @@ def gen_case(rng, tier):
                 if small and rng.random() < 0.3:
                     # an iterable over another member of the pool, or a live one over the receiver itself
                     op = {'op': name, 'obj': i, 'other': i if (i in small and rng.random() < 0.6) else rng.choice(small),
-                          'wrap': rng.choice(['gen', 'iter', 'list', 'filter'])}
+                          'wrap': rng.choice(['gen', 'iter', 'list', 'filter', 'cp-tuple', 'cp-gen', 'cp-tuple'])}
                 elif rng.random() < 0.3:
                     op = {'op': name, 'obj': i, 'text': charset_string(rng)}
                 else:
@@ -183,6 +183,9 @@ def gen_case(rng, tier):
                         x = 0.9
                 if x < 0.55:
                     op = {'op': name, 'obj': i, 'other': rng.choice(us_idx)}        # may be itself
+                    if rng.random() < 0.3:
+                        # the operand is a tuple / generator of the other subset's entries (code points and ranges)
+                        op['wrap'] = rng.choice(['cp-tuple', 'cp-gen'])
                 elif x < 0.7:
                     op = {'op': name, 'obj': i, 'shared': rng.choice(['cat:' + c for c in CATS] + ['blk:' + b for b in BLOCKS])}
                 elif x < 0.85:
@@ -522,6 +525,10 @@ def run_case(case, world):
                     return list(ob)
                 if w == 'filter':
                     return (x for x in ob if x % 2 == 0)
+                if w == 'cp-tuple' and hasattr(ob, 'codepoints'):
+                    return tuple(ob.codepoints)         # the entries themselves: code points and (start, stop) ranges
+                if w == 'cp-gen' and hasattr(ob, 'codepoints'):
+                    return (x for x in list(ob.codepoints))
                 return ob
             if 'shared' in op:
                 return shared_obj(op['shared'])
